@@ -74,8 +74,10 @@ def run(ctx, replay=None):
     base = dict(phases=[dict(name="beta", gamma=0.05)], D=1e-16, cap=200)
     cfgs = [dict(base, tag="coupled-euler-2calls", calls=[(20.0, 0.02), (30.0, 0.02)], iter="euler"),
             dict(base, tag="coupled-rk4-3calls", calls=[(10.0, 0.02), (10.0, 0.05), (10.0, 0.05)], iter="rk4", gg_iter="rk4"),
-            dict(base, tag="coupled-nopinning", calls=[(30.0, 0.02)], iter="euler", no_pinning=True)]
-    with cf.ProcessPoolExecutor(max_workers=3) as ex:
+            dict(base, tag="coupled-nopinning", calls=[(30.0, 0.02)], iter="euler", no_pinning=True),
+            # dense nanometre precipitates + a grain grid starting near the grain size: the drag freezes every boundary for many host steps
+            dict(base, tag="coupled-fully-pinned", D=1e-15, calls=[(0.6, 0.02), (0.6, 0.02)], iter="euler", cap=900, gg_grid=(0.3e-6, 5e-6, 1e-6))]
+    with cf.ProcessPoolExecutor(max_workers=4) as ex:
         results = list(ex.map(_coupled, cfgs))
     traces = [r[0] for r in results]
     reached, res = T.validate("Equiv", [], traces, "c18_equiv")
@@ -88,6 +90,8 @@ def run(ctx, replay=None):
         if v["l"] != len(ev) + 1 or v["fails"]:
             names = sorted(set(f[0].split("@")[0] for f in v["fails"]))
             ctx.violation("coupled:%s" % ",".join(names), "coupled run %s: %s %s" % (cfg_["tag"], v["fails"][:4], info.get("error") or ""), {"config": cfg_, "fails": v["fails"], "info": info})
+        if cfg_["tag"] == "coupled-fully-pinned" and info["fully_pinned_steps"] < 10:
+            raise MachineryError("vacuity: the fully pinned scenario pinned only %d steps" % info["fully_pinned_steps"])
         if info["steps"] < 5:
             raise MachineryError("coupled run %s made only %d steps (%s)" % (cfg_["tag"], info["steps"], info.get("error")))
 
